@@ -221,5 +221,63 @@ pub fn run(run: &mut Run) -> &'static str {
         }
         Ok(())
     });
+    // two positions whose keys agree on most bits contain the same capture (same squares) with
+    // different true verdicts: the defender of the target exists in the first one only. Judged one
+    // after the other on one thread.
+    let cases = run.tier.pick(6_000, 150_000);
+    run.proptest_part("positions_whose_keys_agree_on_most_bits", RULE, pos_case(80..200), cases, |c: &PosCase, st: &mut Stats| {
+        match c {
+            PosCase::Tape(data) => {
+                let mut t = Tape::new(data);
+                let mi = t.pick(super::collide::MASKS.len());
+                let mut base = super::collide::kings_base(&mut t);
+                base.white_to_move = true;
+                let (tf, tr) = (1 + t.pick(6) as i32, 3 + t.pick(3) as i32);
+                let target = crate::refchess::sq(tf, tr);
+                let from = crate::refchess::sq(tf, tr - 1);
+                let def = crate::refchess::sq(tf + if t.pick(2) == 0 { 1 } else { -1 }, tr + 1);
+                if [target, from, def].iter().any(|s| base.board[*s as usize].is_some()) {
+                    st.discard();
+                    return Ok(());
+                }
+                base.board[target as usize] = Some(Pc::new(false, [Kind::P, Kind::P, Kind::N, Kind::B][t.pick(4)]));
+                base.board[from as usize] = Some(Pc::new(true, [Kind::Q, Kind::R, Kind::Q, Kind::R][t.pick(4)]));
+                if base.validate().is_err() {
+                    st.discard();
+                    return Ok(());
+                }
+                let Some(pair) = super::collide::colliding_pair(&mut t, &base, Some((def, Pc::new(false, Kind::P))), mi) else {
+                    st.discard();
+                    return Ok(());
+                };
+                st.class(&format!("keys_agree_on:{}", pair.mask_name));
+                // defended first (verdict false), then undefended (verdict true): a verdict remembered
+                // under a part of the key would be handed to the wrong position
+                let (first, second) = if t.pick(4) == 0 { (&pair.a, &pair.b) } else { (&pair.b, &pair.a) };
+                check_position(first, st)?;
+                check_position(second, st).map_err(|mut f| {
+                    f.msg = format!("{} [judged right after {}, whose key agrees on the {}]", f.msg, first.to_fen(), pair.mask_name);
+                    f.explicit = Some(json!({"Pair": [first.to_fen(), second.to_fen()]}));
+                    f
+                })
+            }
+            PosCase::Pair(first, second) => {
+                for f in [first, second] {
+                    if let Ok(p) = Pos::from_fen(f) {
+                        if p.validate().is_ok() {
+                            check_position(&p, st)?;
+                        }
+                    }
+                }
+                Ok(())
+            }
+            other => {
+                for gp in other.positions(Mix::Tactical, 1, st) {
+                    check_position(&gp.pos, st)?;
+                }
+                Ok(())
+            }
+        }
+    });
     RULE
 }
